@@ -1488,6 +1488,46 @@ theorem C05_recorded_levels_sound (F : List Policy) (ov : Bool) (d : Domain) (c 
 
 /-! ## non-vacuity: concrete worlds in which the theorems speak about real deliveries -/
 
+/-! ## C05 through the queue: the policy inputs are the ones the message had when the body stage ended -/
+
+theorem mem_zip_map {α β γ : Type} (f : α → β) (l₁ : List α) (l₂ : List γ) (p : α × γ)
+    (h : p ∈ l₁.zip l₂) : (f p.1, p.2) ∈ (l₁.map f).zip l₂ := by
+  rw [List.zip_map_left]
+  exact List.mem_map.mpr ⟨p, h, rfl⟩
+
+/-- the target is started with the content the meta-data object had when the body stage ended, whatever it was
+when the queue delivery object was created -/
+theorem C05_queued_inputs_are_final (m : QMsg) :
+    m.toMsg.requireTLS = m.atBody.requireTLS ∧ m.toMsg.tlsNo = m.atBody.tlsNo ∧
+    (m.toMsg.quarantine ≠ 0 ↔ m.atBody.quarantine = true) ∧ m.mailUTF8 = m.atBody.utf8 := by
+  unfold QMsg.toMsg QMsg.mailUTF8 QMsg.handedOver
+  cases m.atBody.quarantine <;> simp
+
+/-- A message that is quarantined when the body stage ends (the flag was raised at ANY stage: msgpipeline applies
+check results at the body stage, after the queue delivery was started) is never relayed: no content on any
+connection, every recipient refused permanently — in every history through the queue, from any pool. -/
+theorem C05_queued_quarantined_never_relayed (cfg : Cfg) (doms : Nat → Domain) (ms : List QMsg) (pool : Pool) :
+    ∀ p ∈ ms.zip (runVia cfg doms ms pool), p.1.atBody.quarantine = true →
+      p.2.data = [] ∧ ∀ r ∈ p.2.rcpts, r.2 = .err .perm := by
+  intro p hp hq
+  have h := C05_quarantined_never_relayed cfg doms (ms.map QMsg.toMsg) pool _
+    (mem_zip_map QMsg.toMsg ms _ p hp)
+  have hq1 : p.1.toMsg.quarantine = 1 := by simp [QMsg.toMsg, QMsg.handedOver, hq]
+  have hq0 : p.1.toMsg.quarantine ≠ 0 := by rw [hq1]; decide
+  exact ⟨(h hq0).1, (h hq0).2.2 hq1⟩
+
+/-- Every connection that content of a queued message is written to satisfies the requirements in force for the
+message AS IT WAS WHEN THE BODY STAGE ENDED (REQUIRETLS, TLS-Required: No, quarantine). -/
+theorem C05_queued_data_only_on_satisfying_conn (cfg : Cfg) (doms : Nat → Domain) (ms : List QMsg) :
+    ∀ p ∈ ms.zip (runVia cfg doms ms emptyPool), ∀ u ∈ p.2.data,
+      Satisfies cfg p.1.toMsg (doms u.dom) u ∧ u.dom ∈ p.1.rcpts := by
+  intro p hp u hu
+  exact C05_data_only_on_satisfying_conn_from_start cfg doms (ms.map QMsg.toMsg) _
+    (mem_zip_map QMsg.toMsg ms _ p hp) u hu
+
+/-- non-vacuity: REQUIRETLS raised and quarantine raised after the queue delivery was started -/
+example : (⟨⟨false, false, false, false⟩, ⟨true, false, true, false⟩, [0]⟩ : QMsg).toMsg.quarantine = 1 := by decide
+
 namespace Demo
 
 def goodMX : MX := ⟨1, true, .offered, .valid, true, true, true, .eeMatch, true, .none, .none, false, false⟩
